@@ -126,7 +126,11 @@ func (x *c04Gen) ball() string {
 func (x *c04Gen) leaf() *c04Goal {
 	g := x.g
 	x.nextI++
-	switch g.Weighted(8, 3, 4, 3, 3, 2, 1, 1, 1, 1) {
+	switch g.Weighted(8, 3, 4, 3, 3, 2, 1, 1, 1, 1, 1) {
+	case 10:
+		// a recursive predicate: D activations of one catch/3 call site are open at once when the ball b(T) is thrown
+		d := 1 + g.Choose(4)
+		return &c04Goal{Op: "rec", N: d, V: g.Choose(d + 2)}
 	case 0:
 		return &c04Goal{Op: "pt", I: x.nextI}
 	case 1:
@@ -283,6 +287,7 @@ func c04GenScenario(r *kit.Run) *c04Scenario {
 			}
 		}
 	}
+	sb.WriteString("rec(0, T) :- pt(90), throw(b(T)).\nrec(N, T) :- N > 0, N1 is N - 1, catch(rec(N1, T), b(N), pt(91)), pt(92).\n")
 	sc.Program = sb.String()
 	sc.Query = c04Text(sc.Goal) + ", anchor(V1, V2, V3, V4)"
 	sc.Via = []string{"directive", "init", "include", "consult-query", "", "", "", "", "", ""}[g.Choose(10)]
@@ -355,6 +360,8 @@ func c04Text(g *c04Goal) string {
 		return "(alloc_pt, functor(_, f, 12))"
 	case "user":
 		return fmt.Sprintf("u%d(%s)", g.U, g.T)
+	case "rec":
+		return fmt.Sprintf("rec(%d, %d)", g.N, g.V)
 	}
 	kit.Bug("c04 text: %q", g.Op)
 	return ""
